@@ -1,5 +1,6 @@
+\* 64-bit weights: every weight / counter / offset / total / bound is a wide natural (4 limbs of 20 bits, spec/WideNum.tla)
 SPECIFICATION TSpec
 CONSTANTS Ids = {} Items = {} Weights = {} LgMaxs = {} MaxTotal = 0 CheckDesign = FALSE
 POSTCONDITION Accepted
-CONSTANT WideNums = FALSE
+CONSTANT WideNums = TRUE
 CHECK_DEADLOCK FALSE
